@@ -65,6 +65,18 @@ CHECKS = {
         ],
         **tiers(20000, 200000),
     },
+    "C06": {
+        "pkg": "./checks/c06",
+        "level": "exploration",
+        "assumptions": [
+            "'promptly' = within 10 s for inputs up to 16 KiB (typical parse times are milliseconds)",
+            "columns are byte columns, lines 0-based (the parser's own convention)",
+            "the parser may include the padding inside { } in an expression's text; whitespace-only expressions are not Go expressions",
+        ],
+        "quick": {"rapid_checks": 5000, "timeout": 900},
+        "thorough": {"rapid_checks": 60000, "timeout": 3400, "shards": 16,
+                     "fuzz": [{"target": "FuzzParse", "time": "300s", "hard_timeout": 1200}]},
+    },
     "C11": {
         "pkg": "./checks/c11",
         "level": "fault_enumeration",
